@@ -104,6 +104,14 @@ pub fn word(i: usize) -> String {
 pub fn is_iri(t: &str) -> bool {
     t.starts_with("http://")
 }
+/// The i-th number of the vocabulary. The values are spread so that numeric order and
+/// code-point order of the lexical forms disagree ("10" < "9", "100" < "2") as soon as a
+/// vocabulary has three numbers.
+pub fn numv(i: usize) -> usize {
+    const SPREAD: [usize; 14] = [0, 2, 10, 9, 1, 100, 11, 3, 19, 101, 4, 5, 20, 99];
+    SPREAD.get(i).copied().unwrap_or(200 + i)
+}
+
 pub fn is_num(t: &str) -> bool {
     !t.is_empty() && t.parse::<i64>().is_ok()
 }
@@ -127,7 +135,7 @@ impl Vocab {
     pub fn object(&self, r: &mut Rng) -> String {
         match r.below(10) {
             0..=5 => ent(r.below(self.n_ent)),
-            6..=8 => format!("{}", r.below(self.n_num.max(1))),
+            6..=8 => format!("{}", numv(r.below(self.n_num.max(1)))),
             _ => word(r.below(self.n_word.max(1))),
         }
     }
@@ -154,7 +162,7 @@ pub fn gen_dataset(r: &mut Rng, v: &Vocab, n_quads: usize) -> Dataset {
             let p = r.below(v.n_pred);
             let o = match p % 4 {
                 0 | 1 => ent(r.below(v.n_ent)),
-                2 => format!("{}", r.below(v.n_num.max(1))),
+                2 => format!("{}", numv(r.below(v.n_num.max(1)))),
                 _ => v.object(r),
             };
             (v.subject(r), pred(p), o)
